@@ -21,6 +21,8 @@ CHECKS = {
              note="trusted: normalised txid = injective name; the merkle construction of the dependency (that a root-preserving mutation must repeat a transaction); header part is C11"),
  'C17': dict(text="symbolic execution of compare / calculate_height_target / median / calculate_target / Config::for_target from the watchdog MIR for every success/failure pattern of up to 5/6 explorer results with symbolic heights, symbolic or unknown canister height and the five targets, against the statement's rule written over order statistics (symmetric in the results); two fetch rounds through the real storage functions",
              note="trusted: sort model, HashMap/thread_local models; heights in [1000, 2^40); the HTTP fetch itself is not executed"),
+ 'C11': dict(text="symbolic execution of HeaderValidator::validate_header and its helpers from the MIR over a header-store window with every time/bits field, the candidate header, its proof-of-work value and the current time symbolic, for tip heights around multiples of 2016 and near genesis on four networks, against Bitcoin Core's rules (median-time-past, 2h rule, pow limit, retarget incl. BIP94, min-difficulty exception and walk-back) written in z3 over shared uninterpreted compact-target and retarget functions; 3-way concrete validation (rule / MIR / native) on real 80-byte headers",
+             note="trusted: arithmetic of Target::from_compact and CompactTarget::from_next_work_required (uninterpreted in the symbolic part, exact python big-int versions in the concrete part), SHA-256d; walk-back depth bounded by the 12-header window; Signet not covered; the canister-side HeaderStore (ValidationContext) is part of C10"),
 }
 NA = {
 }
